@@ -37,13 +37,17 @@ def check(run, replay):
         hist = os.path.join(run.tmp, "hist-%d.ndjson" % i)
         stats = os.path.join(run.tmp, "cstats-%d.json" % i)
         args = ["-out", hist, "-stats", stats, "-seed", str(seed), "-g", "8" if i % 2 else "5", "-ops", "8", "-indexchurn=%s" % ("true" if i % 3 == 0 else "false")]
-        log = run.run_driver(binary, args, timeout=600, env={"GORACE": "halt_on_error=0 exitcode=0"})
+        try:
+            log = run.run_driver(binary, args, timeout=600, env={"GORACE": "halt_on_error=0 exitcode=0"})
+        except vlib.Crash as c:
+            viol.append({"property": "C16", "kind": "crash", "msg": "concurrent calls crashed the node process (seed %d): %s\n%s" % (seed, c.head, c.stack[:2000])})
+            continue
         txt = open(log).read()
         for m in re.finditer(r"WARNING: DATA RACE\n(.*?)\n==================", txt, re.S):
             body = m.group(1)
-            frames = [l.strip() for l in body.split("\n") if "/repo/" in l or "defradb/internal" in l or "defradb/net" in l or "defradb/event" in l]
+            frames = [l.strip() for l in body.split("\n") if "/repo/" in l or vlib.REPO in l or "defradb/internal" in l or "defradb/net" in l or "defradb/event" in l]
             sig = " | ".join(frames[:4])
-            if "/repo/" not in body or sig in races_seen:
+            if not vlib.in_repo(body) or sig in races_seen:
                 continue
             races_seen.add(sig)
             viol.append({"property": "C16", "kind": "data-race", "msg": "the race detector reports a data race in DefraDB code (seed %d): %s\n%s" % (seed, sig, body[:1800])})
